@@ -21,6 +21,26 @@ CLAIMED = {
         "Trusts Python datetime/calendar as the calendar; years 1..9999; `<<` operand order and non-dividing-step reversal are not asserted (documented ambiguities).",
         "DESIGN.md section 3, C09",
     ),
+    "C11": (
+        "exhaustive enumeration of periods x positions x target frequencies with round-trip and calendar-containment oracles + Hypothesis pairs for monotonicity",
+        "Every period of every frequency over years 1..9999 (thorough; boundary/recent years in quick), integer periods -10^4..10^4 and "
+        "Hypothesis-drawn large ones, is sent through SDMX (with and without frequency), ISO, (year, segment), (y,m,d) at each position, "
+        "Python date and repr round trips, and through refrequent/to_daily to every calendar frequency, where the result must be the "
+        "datetime-computed period containing the chosen day; coarse->fine->coarse returns the source; generated pairs check monotonicity "
+        "and batch conversions. Exhaustive over single periods, sampled over pairs.",
+        "Trusts datetime/calendar; only strings produced by the library are required to parse; years 1..9999.",
+        "DESIGN.md section 3, C11",
+    ),
+    "C13": (
+        "Hypothesis-generated series x function x shift x span against documented per-period formulas and a cumulation recursion on a dict reference model; round-trip inversion",
+        "Generated series of all frequencies (1-3 variants, interior NaNs) are transformed by every change function with integer and keyword "
+        "shifts in method and functional form and compared cell by cell (values, missing cells, reported span) with the documented formula "
+        "evaluated on a dict model; the *_from_* helpers are checked against both the change functions and their closed forms; "
+        "cum_f(f(x,k),k,initial=x,span) is checked forward/backward over default and explicit spans against the recursion and against x "
+        "itself. Sampled exploration; sensitivity is measured with mutants.",
+        "Start-of-year cells of pct/apct under 'tty' are not judged; diff_log 'tty' start-of-year cells only required finite; tolerance 1e-11 relative.",
+        "DESIGN.md section 3, C13",
+    ),
 }
 
 NOT_BUILT_REASON = "check not built yet in this round (design in DESIGN.md section 3); not claimed until it is quiet on the unchanged tree and kills its mutants"
